@@ -126,31 +126,21 @@ def Value.toStr : Value → Str
   | .bool true => "true".toList
   | .bool false => "false".toList
 
-/-- XML 1.0 §2.11, applied by every conforming parser to element text: `CR LF` and a lone `CR` are read as `LF`.
-(`QXmlStreamWriter` writes a CR in element text literally; in attribute values it writes `&#13;`, which is preserved.) -/
-def xmlLineEnds : Str → Str
-  | '\r' :: '\n' :: r => '\n' :: xmlLineEnds r
-  | '\r' :: r => '\n' :: xmlLineEnds r
-  | c :: r => c :: xmlLineEnds r
-  | [] => []
-
-/-- the values `QXmppDataForm::toXml` writes for the field, as opaque strings: one `<value/>` per list element whose text
-is the element; a single value unless the string is NULL (an empty non-null one is written as `<value/>`); a boolean
-`1` / `0` -/
-def Value.hashed : Value → List Str
+/-- the wire view of a field value — values are opaque strings: `QXmppDataForm::toXml` writes one `<value/>` per list
+element whose text is the element; a single value unless the string is NULL (an empty non-null one is written as
+`<value/>`); a boolean `1` / `0`.  A conforming XML parser reads each text back unchanged: the writer escapes `<`, `>`, `&`,
+`"` and — repo commit "a carriage return in element text is written as a character reference" — CR, the one character a
+reader would otherwise alter (XML 1.0 §2.11); blanks, LF, TAB are kept by the reader. -/
+def Value.wire : Value → List Str
   | .text s => [s]
   | .null => []
   | .list vs => vs
   | .bool true => [['1']]
   | .bool false => [['0']]
 
-/-- the wire view a peer gets: every `<value/>` element is one value, its text the value as read by a conforming XML
-parser, i.e. with line ends normalised.  Without a CR in the values this is `Value.hashed`. -/
-def Value.wire (v : Value) : List Str := v.hashed.map xmlLineEnds
-
-/-- the values `verificationString()` takes for a field: by field type exactly the strings `toXml` writes (`Value.hashed`),
-sorted with `octetLessThan` -/
-def Value.codeVals (v : Value) : List Str := isort lt8 v.hashed
+/-- the values `verificationString()` takes for a field: by field type exactly the strings `toXml` writes, sorted with
+`octetLessThan` -/
+def Value.codeVals (v : Value) : List Str := isort lt8 v.wire
 
 /-- `key + '<'`, then every value followed by `'<'` -/
 def fieldStrCode (f : Field) : Str :=
